@@ -5,6 +5,7 @@ from checks.storegen import World, Ent, PLAIN, TYPES
 ID = 'C19'
 FLAVOUR = {'quick': 'plain', 'thorough': 'asan'}
 LEAN_MODULES = ['NixModel.Props.C19', 'NixModel.Props.C19Source', 'NixModel.ValidSource', 'NixModel.Gen.ValidRules']
+TECHNIQUE = "Lean 4 proof over a model whose rule tables are translated from the validator's source on every run (proved equal to the hand-written skeletons) + differential correspondence (trace validation) with the built library"
 THEOREMS = ['Nix.Validate.dataArray_source', 'Nix.Validate.tag_source', 'Nix.Validate.multiTag_source', 'Nix.Validate.property_source', 'Nix.Validate.rangeDimension_source', 'Nix.Validate.sampledDimension_source', 'Nix.Validate.setDimension_source', 'Nix.Validate.feature_source', 'Nix.Validate.entity_source', 'Nix.Validate.named_source', 'Nix.Validate.base_tables',
             'Nix.Validate.validateArray_is_the_source_table', 'Nix.Validate.validateNamed_is_the_source_table', 'Nix.Validate.validateTag_is_the_source_table', 'Nix.Validate.validateProp_is_the_source_table', 'Nix.Validate.validateRange_is_the_source_table', 'Nix.Validate.validateSampled_is_the_source_table', 'Nix.Validate.validateSet_is_the_source_table', 'Nix.Validate.validateFeature_is_the_source_table',
             'Nix.C19.validator_sound', 'Nix.C19.validator_sound_conforming', 'Nix.C19.validator_complete', 'Nix.C19.validator_complete_count',
